@@ -331,10 +331,10 @@ func TestProp(t *testing.T) {
 		rep.Floor("a_targets_cleaned_by_301", 20)
 		rep.Floor("a_absolute_form_flows_completed", 10)
 		rep.Floor("b_honest_sessions", 20)
-		rep.Floor("b_cross_browser_refused", 20)
-		rep.Floor("b_state_equals_cookie_refused", 10)
+		rep.Floor("b_cross_browser_refused", 10)
+		rep.Floor("b_state_equals_cookie_refused", 5)
 		rep.Floor("b_sessions_bound_and_verified", 20)
-		rep.Floor("b_denied_user_refused", 10)
+		rep.Floor("b_denied_user_refused", 4)
 		rep.Floor("b_redeem_failure_refused", 10)
 		rep.Floor("b_error_param_refused", 5)
 		rep.Floor("b_reenc_genuine_pair_accepted", 20)
